@@ -248,14 +248,26 @@ func groupBySQLScenario(r *Run, mode string) {
 		}
 		return
 	}
-	func() {
+	runNode := func() {
 		defer func() {
 			if p := recover(); p != nil {
 				err = fmt.Errorf("panic: %v", p)
 			}
 		}()
 		err = planned.Node.Run(execution.ExecutionContext{Context: bubbleCtx()}, produce, metaSend)
-	}()
+	}
+	runNode()
+	if mode == "C16" && err == nil && hdr.Chance(1, 4) {
+		// a materialised plan may be run more than once (the joined side of a LOOKUP JOIN, a subquery per
+		// outer row): the second run over the same stream starts from scratch and must end with the same result
+		if d := running.Diff(want); d == "" {
+			r.Probe("node_run_twice")
+			r.Log("second run of the same node")
+			attrs["second_run_of_the_node"] = "true"
+			running, lastWM, sourceEnded = NewMS(), time.Time{}, false
+			runNode()
+		}
+	}
 	r.AddEvents(nOut)
 	r.Log("run returned err=%v", err)
 	if mode != "C16" {
